@@ -530,3 +530,59 @@ func verifHarness_C07_request_chunk_size_digits() {
 	}
 	verifAssert(false, "witness")
 }
+
+// the header MULTImap: one header sent twice with its name in any mix of
+// upper and lower case and two values — nbio and the interpreted
+// net/http.ReadRequest must file both values, in order, under the same
+// canonical key; a third header with a different name stays separate.
+func verifHarness_C07_request_repeated_header_any_case() {
+	mkName := func(tag string) []byte {
+		name := []byte("x-ab")
+		for _, i := range []int{0, 2, 3} {
+			if verifBool(tag) {
+				name[i] -= 0x20
+			}
+		}
+		return name
+	}
+	n1, n2 := mkName("upper1"), mkName("upper2")
+	v := verifBytes("value", 2)
+	verifAssume(verifAnd(verifVisible(v[0]), verifVisible(v[1])))
+	w := []byte("GET /m HTTP/1.1\r\nHost: h\r\n")
+	w = append(w, n1...)
+	w = append(w, ':', ' ', v[0], '\r', '\n')
+	w = append(w, "X-Other: o\r\n"...)
+	w = append(w, n2...)
+	w = append(w, ':', v[1], '\r', '\n', '\r', '\n')
+	br := bufio.NewReader(bytes.NewReader(append([]byte(nil), w...)))
+	ref, err := http.ReadRequest(br)
+	if err != nil {
+		verifFail("reference-rejects-well-formed-message", "repeated-header")
+		return
+	}
+	want := ref.Header["X-Ab"]
+	verifAssertD(len(want) == 2 && want[0] == string(v[:1]) && want[1] == string(v[1:]), "reference-multimap", "net/http")
+	e := verifHTTPEngine()
+	var got http.Header
+	handled := 0
+	e.Handler = http.HandlerFunc(func(rw http.ResponseWriter, r *http.Request) {
+		handled++
+		got = r.Header.Clone()
+	})
+	conn := &verifNetConn{failAt: -1}
+	p := NewParser(conn, e, NewServerProcessor(), false, nil)
+	perr := p.Parse(append([]byte(nil), w...))
+	verifAssertD(perr == nil && handled == 1, "well-formed-message-accepted", "repeated-header")
+	if handled == 1 {
+		g := got["X-Ab"]
+		verifAssertD(len(g) == 2, "header-multimap", "both-values-under-canonical-key")
+		if len(g) == 2 {
+			verifAssertD(verifTrimOWS(g[0]) == string(v[:1]) && verifTrimOWS(g[1]) == string(v[1:]), "header-multimap", "values-in-order")
+		}
+		// net/http promotes Host to Request.Host and removes it from the map; nbio
+		// fills Request.Host and keeps the key as well (representation difference)
+		delete(got, "Host")
+		verifAssertD(len(got["X-Other"]) == 1 && len(got) == len(ref.Header), "header-multimap", "count")
+	}
+	verifAssert(false, "witness")
+}
